@@ -56,6 +56,15 @@ def instances(tier):
             L.append(Inst("kf-masklaw-%s-col%d" % (name, col), "C01/kf_mask.c", {"OP": op, "COLFIX": col}, link=[], unwind=6, timeout=900,
                           models=("env_stubs.c", "libm_stubs.c"),
                           desc={"layer": "float combiner: combining through a mask == combining the pre-masked source, bit-identical; mask alpha symbolic, colours from a menu"}))
+    # float pipeline: value within one 8-bit step of the exact rational Render/PDF value (alphas concrete, colours symbolic)
+    KFV_OPS = [0x00, 0x01, 0x02, 0x03, 0x04, 0x05, 0x06, 0x07, 0x08, 0x09, 0x0a, 0x0b, 0x0c] + list(range(0x10, 0x1c)) + list(range(0x20, 0x2c))
+    KFV_BLEND = [0x30, 0x31, 0x32, 0x33, 0x34, 0x37, 0x39, 0x3a]
+    agrid = ((64, 192),) if tier == "quick" else ((64, 192), (128, 255), (255, 128), (255, 255), (1, 254), (0, 255), (255, 0), (0, 0), (200, 100))
+    for op in KFV_OPS + (KFV_BLEND if tier == "thorough" else [0x30, 0x32]):
+        for sa, da in (agrid[:4] if op >= 0x30 else agrid):
+            L.append(Inst("kf-value-op%02x-sa%d-da%d" % (op, sa, da), "C01/kf_value.c", {"OP": op, "SA": sa, "DA": da}, link=[], unwind=6, timeout=900,
+                          models=("env_stubs.c", "libm_stubs.c"),
+                          desc={"layer": "float combiner (expand -> combine -> contract) within one 8-bit step of the exact Render/PDF value; alphas concrete, colours symbolic"}))
     # API layer: pixman_image_composite32 on 1x2 images vs the Porter-Duff oracle
     for name, mode, sf, df in (("OVER", 0, "a8r8g8b8", "a8r8g8b8"), ("IN_REVERSE", 0, "x8r8g8b8", "a8r8g8b8"), ("ATOP", 0, "a8r8g8b8", "x8r8g8b8"), ("ADD", 1, "a8r8g8b8", "a8r8g8b8")):
         L.append(Inst("api-%s-%s-%s-%s" % (name, MODES[mode], sf, df), "C01/api.c",
@@ -68,7 +77,7 @@ TEXT = ("Bounded model checking of the real combiner code: every 8-bit Porter-Du
         "(unmasked, unified and component-alpha mask) equals the per-channel Render equation (each product rounded to nearest, "
         "saturating sums) for ALL 2^96 pixel triples, via an assume-guarantee split (macro == spec lemmas for all arguments, "
         "then combiner with re-bound macros vs oracle); integer PDF blend combiners are within rounding of the exact "
-        "real-valued formula; float combiners obey the mask law (masked == pre-masked, bit-identical, mask alpha symbolic); "
+        "real-valued formula; float combiners (all Porter-Duff, DISJOINT_*, CONJOINT_* and the division-free blend operators) land within one 8-bit step of the exact rational value (alphas from a grid, colours symbolic) and obey the mask law (masked == pre-masked, bit-identical, mask alpha symbolic); "
         "pixman_image_composite32 on 2x1 images equals the oracle for a few operator/format combinations (all pixels symbolic).")
 NOTE = ("Trusted: CBMC's C semantics, the oracle headers oracle/arith.h, oracle/pd.h (independent of pixman's macros), the "
         "uninterpreted-function abstraction of o_mul255 (its algebraic facts are proved by lemma 0). Bounds: width <= 2 per call; "
@@ -76,5 +85,5 @@ NOTE = ("Trusted: CBMC's C semantics, the oracle headers oracle/arith.h, oracle/
 RULE = "C01 instance = (layer, operator, mask mode[, alpha/mask grid point])."
 BOUNDS = {"width": "1-2 pixels per combiner call", "pixels": "all 32-bit values symbolic",
           "blend_hard_ops": "source/dest alpha from grid, colours symbolic", "masked_blend": "mask and alphas concrete, colours symbolic"}
-OUTSIDE = ["float combiner values against the real-valued equations (only the mask law is decided)", "SOFT_LIGHT (sqrtf)", "alpha pairs outside the grid for MULTIPLY/DARKEN/LIGHTEN and masked blend operators", "dithering"]
+OUTSIDE = ["float values for alpha pairs outside the grid", "COLOR_DODGE, COLOR_BURN, SOFT_LIGHT, SATURATE and the HSL operators' values (mask law only)", "alpha pairs outside the grid for MULTIPLY/DARKEN/LIGHTEN and masked blend operators", "dithering"]
 ASSUMPTIONS = ["PDF blend operators: inputs premultiplied (colour <= alpha), as the statement says"]
